@@ -67,7 +67,7 @@ def t_matrix_loads(eng):
         return {('attr', m, 'Z'): Zb}
     state = {}
     inner = LoopSpec([('attr', m, 'Z')], inner_step, P + '.loads.pulses', [])
-    inner.key_fn = lambda e, env: [env['l'].ident]
+    inner.key_fn = lambda e, env: [state['load'].ident]      # the outer loop's element, whatever the code calls it
     eng.loop_specs[(Q, 1)] = inner
 
     def outer_assume(eng_, i, l):
@@ -191,7 +191,8 @@ def t_laplace(eng):
     w = r_mul(r_mul(r_mul(2, B.PI), f), Fraction(1000000))
     s = CX(0, w)
 
-    def step(eng_, before, j, i):
+    def step(eng_, before, elem, j):
+        # j: the iteration index (the loop may run over range(len(a)), enumerate(a) or zip(a, b))
         u, d, mm = before[('local', 'u')], before[('local', 'd')], before[('local', 'm')]
         return {('local', 'u'): c_add(u, c_mul(to_cx(b.read((j,))), mm)),
                 ('local', 'd'): c_add(d, c_mul(to_cx(a.read((j,))), mm)),
